@@ -1312,4 +1312,100 @@ Section Bridge.
     - destruct H as (nm' & H). rewrite H. reflexivity.
     - rewrite H. reflexivity.
   Qed.
+  (* a Tuple declared without item fields is outside the hand model ([vset] declines); the source accepts every
+     tuple and stores the EMPTY tuple *)
+  Theorem generated_tuple_no_items : forall (rec : nat -> pyval -> res pyval) u sz a im name nm iattrs l,
+      set_result (Src_Tuple_set re_match rec nm (coll_self name (OFlds []) sz u a im) (OObj KInst iattrs) (OVal (PTuple l)))
+      = (_ <- uniq_check u l ;; Ok (PTuple [])).
+  Proof.
+    intros rec u sz a im name nm iattrs l. unfold Src_Tuple_set.
+    sx2. change co_no_self with no_self. rewrite generated_verify_tuple.
+    destruct (uniq_check u l) as [[]|x1]; cbn [bind]; [|reflexivity].
+    repeat progress cbn [py_len bind co_val py_ne py_eq as_num zint py_and length Z.of_nat].
+    rewrite num_eqb_int. change (1 <? 0) with false.
+    assert (Hc : (if negb (0 =? lenZ' l) then Ok false else @Ok bool false) = Ok false) by (destruct (negb _); reflexivity).
+    rewrite Hc. cbn [bind co_mul as_int]. cbn [repeat concat].
+    assert (Hr : concat (repeat (@nil nat) (Z.to_nat (lenZ' l))) = []).
+    { induction (Z.to_nat (lenZ' l)) as [|k IHk]; [reflexivity | exact IHk]. }
+    rewrite Hr. cbn [co_iter map bind]. unfold co_enumerate. cbn [enum_from Src_Tuple_set_loop1 co_call co_iter_vals py_iter bind].
+    reflexivity.
+  Qed.
 End Bridge.
+
+(* ------------------------------------------------------------------ side conditions are satisfiable; findings *)
+
+Definition any_re : N -> pystr -> bool := fun _ _ => true.
+Definition names0 : names := fun _ => s2p "f".
+
+Example side_conditions_satisfiable :
+  name_ok (s2p "items") = true /\ validating [] = true /\
+  validating [(s2p "_skip_validation", OVal (PBool false))] = true /\
+  tuple_declared [FBoolean] = true /\
+  set_elems_hashable any_re [] (FNumber KFloat SAny no_numc) (PSet false [PNum (NInt 1); PNum (NInt 2)]) = true /\
+  iset_first_ok any_re [] FBoolean (PSet false [PBool true; PStr (s2p "True")]) = true /\
+  map_keys_ok any_re [] (FString no_strc) FBoolean (PDict [(PStr (s2p "k"), PStr (s2p "True"))]) = true.
+Proof. repeat split; vm_compute; reflexivity. Qed.
+
+(* the generated functions evaluate: Array[Float] converts, Map[String, Boolean] converts values *)
+Example generated_functions_run :
+  set_result (Src_Array_set any_re (rec_of any_re [] [FNumber KFloat SAny no_numc]) names0
+                (coll_self (s2p "a") (OFld 0) no_sizec false None false) (OObj KInst []) (OVal (PList [PNum (NInt 4); PNum (NFlt 1 0)])))
+  = Ok (PList [PNum (NFlt 1 2); PNum (NFlt 1 0)]) /\
+  set_result (Src_Map_set any_re (rec_of any_re [] [FString no_strc; FBoolean]) names0
+                (coll_self (s2p "m") (OFlds [0; 1]%nat) no_sizec false None false) (OObj KInst [])
+                (OVal (PDict [(PStr (s2p "k"), PStr (s2p "True"))])))
+  = Ok (PDict [(PStr (s2p "k"), PBool true)]) /\
+  set_result (Src_AnyOf_set any_re (rec_of any_re [] [FNumber KInteger SAny no_numc; FBoolean]) names0
+                (multi_self (s2p "x") 2) (OObj KInst []) (OVal (PStr (s2p "True"))))
+  = Ok (PBool true).
+Proof. repeat split; vm_compute; reflexivity. Qed.
+
+(* FINDING 1 (source and hand model disagree; the library follows the source).  ImmutableSet.__set__ hands its
+   frozenset to Set.__set__, which checks minItems AGAIN on the converted, de-duplicated elements:
+   ImmutableSet(items=Boolean(), minItems=2) given {True, 'True'} is rejected (ValueError) by typedpy,
+   while [vset] stores frozenset({True}). *)
+Example immutableset_double_pass_disagrees :
+  let sz := {| minItems := Some 2; maxItems := None |} in
+  let v := PSet false [PBool true; PStr (s2p "True")] in
+  vset any_re [] (FSet true (Some FBoolean) sz) v = Ok (PSet true [PBool true]) /\
+  set_result (Src_ImmutableSet_set any_re (rec_of any_re [] [FBoolean]) names0
+                (coll_self (s2p "s") (OFld 0) sz false None true) (OObj KInst []) (OVal v)) = Raise ValueError /\
+  (* ... exactly as the double-pass theorem says *)
+  (nf <- vset any_re [] (FSet true (Some FBoolean) sz) v ;; vset any_re [] (FSet true (Some FBoolean) sz) nf) = Raise ValueError.
+Proof. repeat split; vm_compute; reflexivity. Qed.
+
+(* FINDING 2 (outside the declaration language of the hand model: the SAME Field object as key and value field,
+   `s = String(); Map(items=[s, s])`).  Both slots of the scratch structure then have one name, the value
+   overwrites the key: typedpy stores {'v': 'v'} for {'k': 'v'}.  The generated function predicts it when
+   self.items is [#0; #0]; the theorems above are about distinct objects [#0; #1]. *)
+Example map_shared_field_object :
+  set_result (Src_Map_set any_re (rec_of any_re [] [FString no_strc; FString no_strc]) names0
+                (coll_self (s2p "m") (OFlds [0; 0]%nat) no_sizec false None false) (OObj KInst [])
+                (OVal (PDict [(PStr (s2p "k"), PStr (s2p "v"))])))
+  = Ok (PDict [(PStr (s2p "v"), PStr (s2p "v"))]) /\
+  vset any_re [] (FMapKV (FString no_strc) (FString no_strc) no_sizec) (PDict [(PStr (s2p "k"), PStr (s2p "v"))])
+  = Ok (PDict [(PStr (s2p "k"), PStr (s2p "v"))]).
+Proof. split; vm_compute; reflexivity. Qed.
+
+Print Assumptions generated_array_each.
+Print Assumptions generated_array_any.
+Print Assumptions generated_array_pos.
+Print Assumptions generated_deque_each.
+Print Assumptions generated_deque_any.
+Print Assumptions generated_deque_pos.
+Print Assumptions generated_tuple.
+Print Assumptions generated_tuple_no_items.
+Print Assumptions generated_set_items.
+Print Assumptions generated_set_plain.
+Print Assumptions generated_immutableset_items.
+Print Assumptions generated_immutableset_items_fix.
+Print Assumptions generated_immutableset_plain.
+Print Assumptions generated_map_kv.
+Print Assumptions generated_map_any.
+Print Assumptions generated_allof.
+Print Assumptions generated_anyof.
+Print Assumptions generated_oneof.
+Print Assumptions generated_notfield.
+Print Assumptions side_conditions_satisfiable.
+Print Assumptions immutableset_double_pass_disagrees.
+Print Assumptions map_shared_field_object.
